@@ -96,6 +96,8 @@ type Write struct {
 	Via    int    `json:"via,omitempty"`    // 0 Row.SetX / 1 txn.X().Set / 2 SetAny
 	Delete bool   `json:"delete,omitempty"` // delete the row instead
 	SetKey bool   `json:"setkey,omitempty"` // Row.SetKey(Val)
+	TTL    int64  `json:"ttl,omitempty"`    // Row.SetTTL(TTL ns) (C17)
+	Extend int64  `json:"extend,omitempty"` // txn.TTL().Extend(Extend ns) (C17)
 }
 
 // FStep is one step of a filter chain.
